@@ -38,6 +38,16 @@ def main() -> int:
         for t in c16.corpus_texts():
             cases.append({"src": "corpus", "text": core.cps(t), "alpha": corpus_alphabet(t), "maxlen": 2})
         n_corpus = len(cases) - n_gen
+    # distinct inputs only: one case per pattern text (the first one wins: generated trees before tokens / corpus)
+    seen_texts = set()
+    distinct = []
+    for c in cases:
+        t = tuple(c["text"])
+        if t not in seen_texts:
+            seen_texts.add(t)
+            distinct.append(c)
+    n_dropped = len(cases) - len(distinct)
+    cases = distinct
     cases_p = ck.work / "cases.json"
     core.write_json(cases_p, cases)
     obs_p = ck.work / "obs.json"
@@ -73,6 +83,7 @@ def main() -> int:
         "non-trivial = accepted pattern whose tree the rewriting changed, judged on strings that include astral characters "
         "(all strings of scalar values of length <= maxlen over the case alphabet)" % (n_gen, n_corpus, n_acc, n_rew, n_raised)
     )
+    ck.cov["rule"] += "; %d generated cases whose pattern text was already present were dropped before running (distinct texts only)" % n_dropped
     ck.cov["exhaustive"] = True
     pick = [o for o in obs if o["fix"] == "ok" and o["fixed"] != o["parsed"]]
     pick = [pick[k] for k in (0, len(pick) // 2, len(pick) - 1)] if len(pick) >= 3 else obs[:3]
@@ -83,6 +94,6 @@ def main() -> int:
         "Regex.tla validated against Python re on the original texts (scalar strings) and on the rewritten texts (code-unit strings) in the same run (S_*)",
         "domain: strings of scalar values; patterns that name surrogate code points themselves are outside the property",
     ]
-    if n_nontrivial == 0:
+    if n_nontrivial == 0 and not replay:
         raise core.MachineryFailure("vacuous run: the rewriting changed no accepted pattern")
     return ck.finish()
